@@ -111,6 +111,47 @@ pub fn run(ctx: &mut Ctx) {
         }
         ctx.rng = rng;
     }
+    // (S5) element values at the numeric extremes of CBOR (the reader renders every disclosed value): integers around
+    // i64::MIN / u64::MAX / -2^64, floats, deep nesting; correctly encrypted, in the core and the AAMVA namespace
+    {
+        let mut rng: StdRng = ctx.rng.clone();
+        if let Some(sc) = rauth::scene_with_key(&mut rng, None) {
+            let ints: [i128; 9] = [i64::MIN as i128, i64::MIN as i128 - 1, -(1i128 << 64), -(1i128 << 64) + 1, i64::MAX as i128, i64::MAX as i128 + 1, u64::MAX as i128, -1, 0];
+            let mut vals: Vec<(String, Value)> = ints.iter().filter_map(|i| ciborium::value::Integer::try_from(*i).ok().map(|x| (format!("int {i}"), Value::Integer(x)))).collect();
+            vals.push(("array of extreme ints".into(), arr(vec![Value::Integer(ciborium::value::Integer::try_from(-(1i128 << 64)).unwrap()), Value::Integer(u64::MAX.into())])));
+            vals.push(("map with extreme int".into(), Value::Map(vec![(text("k"), Value::Integer(ciborium::value::Integer::try_from(i64::MIN as i128 - 1).unwrap()))])));
+            vals.push(("float nan".into(), Value::Float(f64::NAN)));
+            vals.push(("float inf".into(), Value::Float(f64::INFINITY)));
+            vals.push(("tagged extreme int".into(), Value::Tag(2, Box::new(Value::Bytes(vec![0xff; 40])))));
+            for (name, v) in vals {
+                for ns_i in 0..2usize {
+                    let mut pt = sc.plaintext.clone();
+                    let v2 = v.clone();
+                    // edit the first item of the namespace through its decoded map
+                    if let Some(Value::Array(docs)) = rauth::map_get_mut(&mut pt, "documents") {
+                        if let Some(Value::Map(nss)) = rauth::map_get_mut(&mut docs[0], "issuerSigned").and_then(|i| rauth::map_get_mut(i, "nameSpaces")) {
+                            let n = nss.len();
+                            if let Value::Array(items) = &mut nss[ns_i % n].1 {
+                                if let Some(Value::Tag(24, b)) = items.first_mut() {
+                                    if let Value::Bytes(inner) = b.as_mut() {
+                                        if let Some(Value::Map(mut m)) = from_bytes(inner) {
+                                            for (k, x) in m.iter_mut() { if k.as_text() == Some("elementValue") { *x = v2.clone(); } }
+                                            *inner = to_bytes(&Value::Map(m));
+                                        }
+                                    }
+                                }
+                            }
+                        }
+                    }
+                    let mut rdr = sc.rdr.clone();
+                    let rk = rdr_view(&rdr);
+                    let msg = session_data(Some(&aes_encrypt(&rk.sk_device, &iso_iv(true, rk.device_ctr as u32 + 1), &to_bytes(&pt))), None);
+                    attempt(ctx, "handle_response(extreme element value)", hex::encode(format!("{name} in namespace {ns_i}").as_bytes()), move || { let o = rdr.handle_response(&msg); if o.errors.is_empty() { "handled" } else { "errors" } });
+                }
+            }
+        }
+        ctx.rng = rng;
+    }
     let per_scene = ctx.budget(2400, 60000);
     let scenes = ctx.budget(3, 40);
     for _ in 0..scenes {
